@@ -115,18 +115,19 @@ func genHL(t *rapid.T, label string) HL {
 }
 
 func genTargetRunes(t *rapid.T, size int, label string) int {
+	// rapid favours small draws: the common kinds come first
 	switch k := rapid.IntRange(0, 39).Draw(t, label+"LenKind"); {
-	case k == 0:
-		return 0
-	case k <= 5:
-		return rapid.IntRange(1, size).Draw(t, label+"Short")
-	case k <= 15:
-		return rapid.IntRange(size, 2*size+2).Draw(t, label+"Around")
-	case k <= 30 || size >= 20:
-		return rapid.IntRange(2*size, 6*size).Draw(t, label+"Long")
-	default:
+	case k <= 14 && size < 20:
 		// small fragment sizes: also texts with room for many matches
-		return rapid.IntRange(6*size, 80).Draw(t, label+"VeryLong")
+		return rapid.IntRange(2*size, 80).Draw(t, label+"VeryLong")
+	case k <= 22:
+		return rapid.IntRange(2*size, 6*size).Draw(t, label+"Long")
+	case k <= 31:
+		return rapid.IntRange(size, 2*size+2).Draw(t, label+"Around")
+	case k == 35:
+		return 0
+	default:
+		return rapid.IntRange(1, size).Draw(t, label+"Short")
 	}
 }
 
@@ -218,7 +219,7 @@ func genQuery(t *rapid.T, a *analysis.Analyzer, docs []string) Query {
 			break
 		}
 	}
-	if len(ok) == 0 || rapid.IntRange(0, 29).Draw(t, "matchAll") == 0 {
+	if len(ok) == 0 || rapid.IntRange(0, 29).Draw(t, "matchAll") == 23 {
 		return Query{Kind: "all"}
 	}
 	n := len(ok)
@@ -389,6 +390,16 @@ func (cs *caseStats) note(c Case, text []byte, locs []Loc, hl HL, st *hlStats) {
 	cs.judged++
 	if st.nontrivial(hl, len(locs)) {
 		cs.nontrivial = true
+		cs.class("nontrivial-evaluation")
+	} else {
+		switch {
+		case st.textRunes <= hl.Size:
+			cs.class("trivial-because:text-within-size")
+		case len(locs) < 2:
+			cs.class("trivial-because:fewer-than-2-matches")
+		default:
+			cs.class("trivial-because:no-multibyte-rune-in-fragments")
+		}
 	}
 	if len(locs) == 0 {
 		cs.class("no-locations")
